@@ -205,7 +205,7 @@ def audit_axioms(prop_id):
   axioms = {}
   cur = None
   for m in re.finditer(
-      r"'([^']+)' (?:depends on axioms: \[([^\]]*)\]|does not depend on any axioms)", out):
+      r"'(\S+)' (?:depends on axioms: \[([^\]]*)\]|does not depend on any axioms)", out):
     axioms[m.group(1)] = [a.strip() for a in (m.group(2) or '').replace('\n', ' ').split(',')
                           if a.strip()]
   ok = rc == 0 and all(n in axioms for n in names) and all(
